@@ -27,6 +27,7 @@ type c18Case struct {
 	FailAt   int      `json:"failat,omitempty"`
 	FailKind int      `json:"failkind,omitempty"` // 0 plain error, 1 wraps io.EOF, 2 wraps io.ErrUnexpectedEOF
 	Prev     *c18Prev `json:"prev,omitempty"`     // an earlier stream read (partly) through the same object before Reset
+	Zero     string   `json:"zero,omitempty"`     // block | content: the data is patched so that the XXH32 of its first (stored) block / of the whole content is 0
 }
 
 // c18Prev: the object's earlier life: a stream that is read for Calls calls (its source may fail), then Reset.
@@ -49,6 +50,9 @@ func failErr(kind int) error {
 
 func runC18(c c18Case, rec *stat.Rec) *stat.Failure {
 	data := c.Data.Build()
+	if c.Zero != "" && zeroPatch(data, c.Zero, c.Opts.blockSize()) {
+		rec.Class("input/xxh32-of-" + c.Zero + "-is-zero")
+	}
 	src := &inst.Source{Data: data, Chunks: c.Src, EOFWith: c.EOFW, FailAt: c.FailAt, FailWith: failErr(c.FailKind)}
 	rc := &inst.ReadCloser{Reader: src}
 	cr := lz4.NewCompressingReader(rc)
@@ -292,6 +296,31 @@ func TestC18Pinned(t *testing.T) {
 			c := c18Case{Opts: wopts{BS: 7, ContentSum: true, Conc: 1}, Data: gen.Data{Segs: segs}, Sizes: sizes}
 			pinned(t, "C18", "C18/read", c, runC18)
 		}
+	}
+}
+
+// TestC18ZeroChecksums: incompressible inputs patched so that the checksum of the first stored block, or of the content, is 0
+// (a value some code takes for "no checksum").
+func TestC18ZeroChecksums(t *testing.T) {
+	rec := stat.For("C18")
+	rec.SetRule(c18Rule)
+	if shard != 0 {
+		return
+	}
+	for _, n := range []int{4, 20, 65536 - 12, 65536 + 65536 - 12} {
+		for _, zero := range []string{"block", "content"} {
+			for _, sizes := range [][]int{{4096}, {1}, {1 << 20}} {
+				segs := []gen.Seg{{K: "rand", N: n, S: uint64(n)}}
+				if n > 65536 {
+					segs = []gen.Seg{{K: "rand", N: 65536 - 12, S: 1}, {K: "rand", N: n - 65536 + 12, S: 2}}
+				}
+				c := c18Case{Opts: wopts{BS: 4, BlockSum: true, ContentSum: true, Conc: 1}, Data: gen.Data{Segs: segs}, Sizes: sizes, Zero: zero}
+				pinned(t, "C18", "C18/read", c, runC18)
+			}
+		}
+	}
+	if rec.ClassCount("input/xxh32-of-block-is-zero") == 0 || rec.ClassCount("input/xxh32-of-content-is-zero") == 0 {
+		t.Fatalf("HARNESS PROBLEM: no zero-checksum input was produced")
 	}
 }
 
